@@ -286,10 +286,18 @@ type c08Inst struct {
 	s          *StateDB
 	hist       []c08Op // effective (non-reverted) history since genesis
 	marks      []c08Mark
-	replayable bool   // false for instances copied in the middle of a transaction
-	jops       int    // journalled ops since the last boundary
-	lastAPI    string // API observation after this instance's last observed op ("" = unknown)
-	existed    [c08U]bool // Exist(a) at the last transaction boundary
+	replayable bool        // false for instances copied in the middle of a transaction
+	jops       int         // journalled ops since the last boundary
+	lastAPI    string      // API observation after this instance's last observed op ("" = unknown)
+	existed    [c08U]bool  // Exist(a) at the last transaction boundary
+	flushed    [c08U]int64 // hot address: slot values written to the storage trie by the last IntermediateRoot/Commit (= originStorage)
+}
+
+// c08Forced is one scripted step of a motif (see startMotif); it runs through the same code path,
+// records and oracles as a random step.
+type c08Forced struct {
+	kind string // "op", "snap", "revert-last", "finalise", "iroot"
+	op   c08Op
 }
 
 type c08Case struct {
@@ -302,6 +310,11 @@ type c08Case struct {
 	next  int
 	trace []string
 	bad   bool
+	// storage-tier generator state
+	hotA, hotK int         // the slot most storage writes go to
+	blockMode  bool        // transaction boundaries are mostly Finalise (several txs per IntermediateRoot/Commit)
+	queue      []c08Forced // pending scripted steps
+	qInst      *c08Inst    // the instance they run on
 }
 
 func (c *c08Case) detail() string {
@@ -411,7 +424,13 @@ func (c *c08Case) emptyCreated(in *c08Inst) (out []int) {
 }
 
 // afterBoundary checks the clearing rule and records which accounts exist now.
-func (c *c08Case) afterBoundary(in *c08Inst, del bool, created []int) {
+func (c *c08Case) afterBoundary(in *c08Inst, del bool, created []int, root bool) {
+	if root {
+		// what the storage trie of the hot account now holds (the tier below pendingStorage)
+		for k := 0; k < c08U; k++ {
+			in.flushed[k] = new(big.Int).SetBytes(in.s.GetState(c08Addr(c.hotA), c08Key(k)).Bytes()).Int64()
+		}
+	}
 	if del && in.replayable {
 		for _, i := range created {
 			if in.s.Exist(c08Addr(i)) {
@@ -439,6 +458,29 @@ func (c *c08Case) genOp(in *c08Inst) c08Op {
 		a = r.Intn(2) // concentrate on two addresses
 	}
 	k := r.Intn(c08U)
+	if r.Chance(40) {
+		// storage tiers: hammer one slot with a tiny value universe in which "back to the origin value"
+		// (what the trie holds: zero on a fresh account, the last flushed value otherwise) is frequent
+		a, k = c.hotA, c.hotK
+		switch y := r.Intn(100); {
+		case y < 62:
+			return c08Op{kind: "sstore", a: a, k: k, v: int64(r.Pick(int(in.flushed[k]), int(in.flushed[k]), 0, 1, 2, 3))}
+		case y < 74:
+			k = r.Intn(c08U)
+			return c08Op{kind: "sstore", a: a, k: k, v: int64(r.Pick(int(in.flushed[k]), 0, 1, 2))}
+		case y < 82:
+			if r.Bool() {
+				return c08Op{kind: "setbal", a: a, v: 5} // keep it non-empty so that Finalise(true) keeps its pending storage
+			}
+			return c08Op{kind: "nonce", a: a, v: 1}
+		case y < 88:
+			return c08Op{kind: "suicide", a: a}
+		case y < 94:
+			return c08Op{kind: "create", a: a}
+		default:
+			return c08Op{kind: "addbal", a: a, v: 0}
+		}
+	}
 	switch r.Intn(22) {
 	case 0, 1:
 		return c08Op{kind: "addbal", a: a, v: int64(r.Pick(0, 0, 1, 2, 3))}
@@ -484,6 +526,76 @@ func (c *c08Case) genOp(in *c08Inst) c08Op {
 	}
 }
 
+// startMotif queues a scripted sequence on the hot slot of `in`.  The shapes are the combinations of the
+// three storage tiers (dirtyStorage / pendingStorage / originStorage+trie) that random generation
+// rarely lines up: a write flushed only to pending (Finalise without root), the slot set back to its
+// origin value, a snapshot taken right then, another write and the revert; the same across a root,
+// across self-destruct + recreate, nested, and random walks over {origin value, 0..3} x
+// {Snapshot, Revert, Finalise, IntermediateRoot}.
+func (c *c08Case) startMotif(in *c08Inst) {
+	r := c.r
+	a, k := c.hotA, c.hotK
+	A := in.flushed[k]
+	other := func() int64 {
+		v := int64(r.Intn(4))
+		if v == A {
+			v = (v + 1 + int64(r.Intn(3))) % 4
+		}
+		return v
+	}
+	B, C := other(), other()
+	w := func(v int64) c08Forced { return c08Forced{kind: "op", op: c08Op{kind: "sstore", a: a, k: k, v: v}} }
+	j := func(kind string) c08Forced { return c08Forced{kind: "op", op: c08Op{kind: kind, a: a}} }
+	fin := c08Forced{kind: "finalise", op: c08Op{kind: "finalise", v: 1}}
+	root := c08Forced{kind: "iroot", op: c08Op{kind: "iroot", v: 1}}
+	snap, rev := c08Forced{kind: "snap"}, c08Forced{kind: "revert-last"}
+	var q []c08Forced
+	if in.s.Empty(c08Addr(a)) {
+		q = append(q, c08Forced{kind: "op", op: c08Op{kind: "setbal", a: a, v: 5}})
+	}
+	name := ""
+	switch y := r.Intn(100); {
+	case y < 30: // pending != origin == prevalue at revert time
+		name = "pending-origin-revert"
+		q = append(q, w(B), fin, w(A), snap, w(C), rev)
+	case y < 42: // the same, nested: both reverts must land on their own value
+		name = "pending-origin-nested"
+		q = append(q, w(B), fin, snap, w(A), snap, w(C), rev, rev)
+	case y < 52: // two transactions deep: pending overwritten before the root
+		name = "pending-twice"
+		q = append(q, w(B), fin, w(C), fin, w(A), snap, w(B), rev, root)
+	case y < 62: // self-destruct + recreate over pending storage, creation reverted
+		name = "pending-suicide-recreate"
+		q = append(q, w(B), fin, j("suicide"), snap, j("create"), w(C), rev)
+	case y < 72: // across a root: origin moves to B, the old value A is now an ordinary value
+		name = "root-then-origin"
+		q = append(q, w(B), root, w(A), snap, w(B), w(C), rev, fin, w(B), snap, w(A), rev)
+	case y < 80: // delete (zero) over a flushed non-zero value and back
+		name = "zero-over-flushed"
+		q = append(q, w(B), root, w(0), fin, w(B), snap, w(0), rev, root)
+	default:
+		name = "walk"
+		for n := 5 + r.Intn(5); n > 0; n-- {
+			switch z := r.Intn(100); {
+			case z < 25:
+				q = append(q, w(A))
+			case z < 55:
+				q = append(q, w(int64(r.Intn(4))))
+			case z < 70:
+				q = append(q, snap)
+			case z < 85:
+				q = append(q, rev)
+			case z < 97:
+				q = append(q, fin)
+			default:
+				q = append(q, root)
+			}
+		}
+	}
+	c.queue, c.qInst = q, in
+	c.o.Stat("motif:" + name)
+}
+
 func c08AccountsOnly(o *vfOut, s *StateDB) string {
 	return strings.Join(c08Accounts(o, s, false), " ")
 }
@@ -511,7 +623,7 @@ func (c *c08Case) commit(in *c08Inst, del bool, observe bool) {
 	in.hist = append(in.hist, op)
 	c.boundary(in)
 	c.emit(in, observe, op.line(), "ok")
-	c.afterBoundary(in, del, created)
+	c.afterBoundary(in, del, created, true)
 	o.Stat("op:commit")
 	// (ii) root of the effective history on a fresh state
 	if in.replayable {
@@ -609,11 +721,26 @@ func c08RunCase(o *vfOut, r *vfRand, idx int) {
 	}
 	c.insts = []*c08Inst{{id: 0, s: s, replayable: true}}
 	c.next = 1
+	c.hotA, c.hotK = r.Intn(2), r.Intn(c08U)
+	c.blockMode = r.Chance(50)
+	if r.Chance(70) {
+		// a funded hot account survives Finalise(true) with its pending storage
+		c.queue = []c08Forced{{kind: "op", op: c08Op{kind: "setbal", a: c.hotA, v: 5}}}
+		c.qInst = c.insts[0]
+	}
 	o.Op("world", fmt.Sprintf("case %d", idx), "ok")
 	nops := 60 + r.Intn(90)
 	reverts, commits, copies := 0, 0, 0
 	for step := 0; step < nops && !c.bad; step++ {
 		in := c.pick()
+		var f *c08Forced
+		if len(c.queue) == 0 && r.Chance(4) {
+			c.startMotif(in)
+		}
+		if len(c.queue) > 0 {
+			f, in = &c.queue[0], c.qInst
+			c.queue = c.queue[1:]
+		}
 		observe := !sparse || r.Chance(20) || step == nops-1
 		// (iv) nobody else changed this instance since its last own observation
 		if len(c.insts) > 1 && in.lastAPI != "" && r.Chance(50) {
@@ -624,6 +751,13 @@ func c08RunCase(o *vfOut, r *vfRand, idx int) {
 			o.Stat("oracle:copy-independent")
 		}
 		x := r.Intn(100)
+		if c.blockMode && x >= 17 && x < 26 {
+			// a block of several transactions: Finalise between them, a root only now and then
+			x = r.Pick(17, 17, 17, 17, 17, 17, 17, 17, 20, 23)
+		}
+		if f != nil {
+			x = map[string]int{"snap": 0, "revert-last": 10, "finalise": 17, "iroot": 20, "op": 99}[f.kind]
+		}
 		switch {
 		case x < 9: // Snapshot
 			mark := c08Mark{histLen: len(in.hist)}
@@ -635,7 +769,10 @@ func c08RunCase(o *vfOut, r *vfRand, idx int) {
 			c.emit(in, observe, "snap", fmt.Sprintf("id=%d", mark.id))
 			o.Stat("op:snap")
 		case x < 17: // RevertToSnapshot
-			if len(in.marks) == 0 || r.Chance(8) {
+			if f != nil && len(in.marks) == 0 {
+				continue // scripted revert without an open snapshot
+			}
+			if f == nil && (len(in.marks) == 0 || r.Chance(8)) {
 				// stale / unknown id: must panic and change nothing
 				id := r.Intn(in.s.nextRevisionId + 2)
 				valid := false
@@ -670,7 +807,7 @@ func c08RunCase(o *vfOut, r *vfRand, idx int) {
 				continue
 			}
 			mi := r.Intn(len(in.marks))
-			if r.Chance(60) {
+			if r.Chance(60) || f != nil {
 				mi = len(in.marks) - 1
 			}
 			m := in.marks[mi]
@@ -697,21 +834,30 @@ func c08RunCase(o *vfOut, r *vfRand, idx int) {
 			}
 		case x < 20: // Finalise
 			op := c08Op{kind: "finalise", v: int64(r.Pick(1, 1, 1, 0))}
+			if c.blockMode {
+				op.v = int64(r.Pick(1, 1, 1, 1, 1, 1, 1, 1, 1, 0))
+			}
+			if f != nil {
+				op = f.op
+			}
 			created := c.emptyCreated(in)
 			st := op.apply(in.s)
 			in.hist = append(in.hist, op)
 			c.boundary(in)
 			c.emit(in, observe, op.line(), st)
-			c.afterBoundary(in, op.v == 1, created)
+			c.afterBoundary(in, op.v == 1, created, false)
 			o.Stat("op:finalise")
 		case x < 23: // IntermediateRoot
 			op := c08Op{kind: "iroot", v: int64(r.Pick(1, 1, 1, 0))}
+			if f != nil {
+				op = f.op
+			}
 			created := c.emptyCreated(in)
 			st := op.apply(in.s)
 			in.hist = append(in.hist, op)
 			c.boundary(in)
 			c.emit(in, observe, op.line(), st)
-			c.afterBoundary(in, op.v == 1, created)
+			c.afterBoundary(in, op.v == 1, created, true)
 			o.Stat("op:iroot")
 		case x < 26: // Commit (+ reopen)
 			c.commit(in, !r.Chance(25), observe)
@@ -739,7 +885,7 @@ func c08RunCase(o *vfOut, r *vfRand, idx int) {
 				c.bad = true
 				break
 			}
-			ni := &c08Inst{id: c.next, s: cp, hist: append([]c08Op(nil), in.hist...), replayable: in.replayable && in.jops == 0, existed: in.existed}
+			ni := &c08Inst{id: c.next, s: cp, hist: append([]c08Op(nil), in.hist...), replayable: in.replayable && in.jops == 0, existed: in.existed, flushed: in.flushed}
 			if in.jops > 0 {
 				o.Stat("op:copy-midtx")
 			}
@@ -763,6 +909,9 @@ func c08RunCase(o *vfOut, r *vfRand, idx int) {
 			o.Stat("op:copy")
 		default:
 			op := c.genOp(in)
+			if f != nil {
+				op = f.op
+			}
 			st := op.apply(in.s)
 			in.hist = append(in.hist, op)
 			in.jops++
